@@ -34,7 +34,7 @@ Section ResetP.
   Proof.
     intros (H1 & H2 & H3 & H4 & H5 & H6).
     destruct x as [ff fb ag de sy sq e fr a bwu bwl rate sc lk tr q tc ut fe].
-    destruct ff as [ffw ffi ffs], fb as [fbw fbi fbs], ag as [ab amin amax al agn], de as [dw dm ds],
+    destruct ff as [ffw ffi ffs ffc0], fb as [fbw fbi fbs fbc0], ag as [ab amin amax al agn], de as [dw dm ds],
              sy as [spt pmin pmax al0 be0 pav pin th tcn], sq as [me po pc st dt pb pp sh ph sc2 scl sl],
              e as [rx rg tt ffc fbc ffw2 fbw2 md], fr as [fs flb fmp fmi], a as [ah ast ap].
     cbn [x_dc_ff x_dc_fb x_agc x_demod x_sym x_squelch x_eq x_framer x_asm ma_window ma_inv_len eq_ff_coeff
@@ -44,14 +44,14 @@ Section ResetP.
          p_dc_len p_dc_inv_len p_agc_bw p_gmin p_gmax p_demod_len p_mark p_space p_spt p_pmin p_pmax
          p_max_errors p_popen p_pclose p_sync_to p_pt_bw p_relax p_regul p_train_to p_nff p_nfb
          p_max_prefix p_max_invalid p_bw_unlocked p_bw_locked p_rate
-         ma_window ma_inv_len ma_sum ag_bandwidth ag_min ag_max de_window de_mark de_space
+         ma_window ma_inv_len ma_sum ma_since ag_bandwidth ag_min ag_max de_window de_mark de_space
          sy_spt sy_pmin sy_pmax sq_max_errors sq_popen sq_pclose sq_sync_to sq_pt_bw
          eq_relax eq_regul eq_train_to eq_ff_wind eq_fb_wind fr_max_prefix fr_max_invalid].
     unfold sym_set_bandwidth. cbn [sy_spt sy_pmin sy_pmax sy_pavg sy_pinst sy_ted_hist sy_ted_count].
     destruct (alphabeta bwu) as [al1 be1].
     unfold sym_reset, mavg_reset, agc_reset, demod_reset, squelch_reset, eq_reset, framer_reset, assembler_reset.
     cbn [sy_spt sy_pmin sy_pmax sy_alpha sy_beta sy_pavg sy_pinst sy_ted_hist sy_ted_count
-         ma_window ma_inv_len ma_sum ag_bandwidth ag_min ag_max de_window de_mark de_space
+         ma_window ma_inv_len ma_sum ma_since ag_bandwidth ag_min ag_max de_window de_mark de_space
          sq_max_errors sq_popen sq_pclose sq_sync_to sq_pt_bw eq_relax eq_regul eq_train_to
          eq_ff_coeff eq_fb_coeff eq_ff_wind eq_fb_wind eq_mode fr_max_prefix fr_max_invalid].
     rewrite !zeros_length, !identity_n_length. rewrite H1, H2, H3, H4, H5.
